@@ -56,13 +56,14 @@ type Layout struct {
 	Inherit   string // "leaf" | "parent" | "root": where MediaBox/Resources/Rotate live
 	Revisions int    // 0/1, 2, 3
 	Order     string // "asc" | "desc" (descending object numbers, shuffled file order)
+	Indirect  bool   // Resources, the Font dictionary, MediaBox and multi-stream /Contents arrays are indirect objects
 	EOL       string // "LF" | "CRLF" | "CR"
 }
 
 func (l Layout) String() string {
-	return fmt.Sprintf("xref=%s objstm=%s filter=%s length=%s split=%d/%s/%d depth=%d inherit=%s rev=%d order=%s eol=%s",
+	return fmt.Sprintf("xref=%s objstm=%s filter=%s length=%s split=%d/%s/%d depth=%d inherit=%s rev=%d order=%s eol=%s indirect=%v",
 		dflt(l.XRef, "table"), dflt(l.ObjStm, "none"), dflt(l.Filter, "none"), dflt(l.Length, "direct"), max1(l.Split), dflt(l.SplitWS, "left"), l.SplitAt,
-		max1(l.Depth), dflt(l.Inherit, "leaf"), max1(l.Revisions), dflt(l.Order, "asc"), dflt(l.EOL, "LF"))
+		max1(l.Depth), dflt(l.Inherit, "leaf"), max1(l.Revisions), dflt(l.Order, "asc"), dflt(l.EOL, "LF"), l.Indirect)
 }
 
 func dflt(s, d string) string {
@@ -471,7 +472,31 @@ func Plan(doc Doc, lay Layout) File {
 			}
 		}
 	}
+	if lay.Indirect {
+		add(pending{key: "res", packOK: true, body: func(ref func(string) int) string {
+			return fmt.Sprintf("<< /Font %d 0 R >>", ref("fontdict"))
+		}})
+		add(pending{key: "fontdict", packOK: true, body: func(ref func(string) int) string {
+			r := fontRes(ref) // "<< /Font << ... >> >>"
+			return strings.TrimSuffix(strings.TrimPrefix(r, "<< /Font "), " >>")
+		}})
+		seenMB := map[string]bool{}
+		for _, p := range doc.Pages {
+			p := p
+			if k := "mbox" + mb(p); !seenMB[k] {
+				seenMB[k] = true
+				add(pending{key: k, packOK: true, body: func(func(string) int) string { return mb(p) }})
+			}
+		}
+	}
 	attrs := func(p Page, ref func(string) int) string {
+		if lay.Indirect {
+			s := fmt.Sprintf(" /MediaBox %d 0 R /Resources %d 0 R", ref("mbox"+mb(p)), ref("res"))
+			if p.Rotate != 0 {
+				s += fmt.Sprintf(" /Rotate %d", p.Rotate)
+			}
+			return s
+		}
 		s := fmt.Sprintf(" /MediaBox %s /Resources %s", mb(p), fontRes(ref))
 		if p.Rotate != 0 {
 			s += fmt.Sprintf(" /Rotate %d", p.Rotate)
@@ -538,6 +563,10 @@ func Plan(doc Doc, lay Layout) File {
 			case 1:
 				s += fmt.Sprintf(" /Contents %d 0 R", ref(ckeys[0]))
 			default:
+				if lay.Indirect {
+					s += fmt.Sprintf(" /Contents %d 0 R", ref(fmt.Sprintf("carr%d", i)))
+					break
+				}
 				s += " /Contents ["
 				for k, ck := range ckeys {
 					if k > 0 {
@@ -549,6 +578,18 @@ func Plan(doc Doc, lay Layout) File {
 			}
 			return s + " >>"
 		}})
+		if lay.Indirect && len(ckeys) > 1 {
+			add(pending{key: fmt.Sprintf("carr%d", i), rev: rev, packOK: true, body: func(ref func(string) int) string {
+				s := "["
+				for k, ck := range ckeys {
+					if k > 0 {
+						s += " "
+					}
+					s += fmt.Sprintf("%d 0 R", ref(ck))
+				}
+				return s + "]"
+			}})
+		}
 	}
 	// intermediate nodes
 	kidsOf := func(node string, upto int) []string { // pages visible up to (excluding) index upto
